@@ -190,6 +190,78 @@ def json_copy_any(v):
     return v
 
 
+# ---- the command line as the channel: class choices and sub-options on top of three kinds of default -----------------
+
+ARGV_MENU = [[], ["--x=Sub2"], ["--x=NoParams"], ["--x=NoW"], ["--x=Sub2", "--x.w=3"], ["--x.w=5"], ["--x=vf.fixtures.NoParams"], ["--x=Sub1", "--x.z=0.25", "--x=NoParams"],
+             ["--x=NoParams", "--x=Sub1"], ['--x={"class_path": "vf.fixtures.Sub2", "init_args": {"flag": true}}'], ["--y=2"], ["--l+=4"], ["--l=[7]", "--l+=[8, 9]"],
+             ["--o.k=5"], ["--o=null"], ['--o={"k": 1}', "--o.r=0.5"]]
+
+
+def _argv_parser(default_kind):
+    from typing import List, Optional
+
+    from jsonargparse import ArgumentParser, lazy_instance
+
+    from ..fixtures import Base, Inner, Sub1
+
+    default = {"none": None, "spec": {"class_path": "vf.fixtures.Sub1", "init_args": {"w": 7, "z": 0.75}}, "lazy": lazy_instance(Sub1, w=7)}[default_kind]
+    p = ArgumentParser(exit_on_error=False)
+    p.add_argument("--x", type=Base, default=default)
+    p.add_argument("--y", type=float, default=1.0)  # defaults are not normalised by design: keep them in normal form
+    p.add_argument("--l", type=List[int], default=[1])
+    p.add_argument("--o", type=Optional[Inner], default=None)
+    return p
+
+
+def _argv_once(default_kind, argv):
+    from jsonargparse import ArgumentError
+
+    p = _argv_parser(default_kind)
+    try:
+        cfg = p.parse_args(list(argv))
+    except ArgumentError:
+        return None
+    try:
+        p.validate(cfg)
+    except Exception as ex:
+        return Fail("argv:parse-result-fails-validation", argv=argv, default=default_kind, msg=str(ex)[:200])
+    try:
+        again = p.parse_object(cfg.clone())
+    except ArgumentError as ex:
+        return Fail("argv:parse-result-rejected-as-object", argv=argv, default=default_kind, msg=str(ex)[:200])
+    r = same(cfg, again)
+    if r:
+        return Fail("argv:re-parsing-as-object-changes-the-result", argv=argv, default=default_kind, where=r)
+    for fmt in ("yaml", "json"):
+        t1 = p.dump(cfg, format=fmt, skip_none=False)
+        try:
+            t2 = p.dump(p.parse_string(t1), format=fmt, skip_none=False)
+        except ArgumentError as ex:
+            return Fail("argv:dump-not-accepted", argv=argv, default=default_kind, fmt=fmt, msg=str(ex)[:200])
+        if t1 != t2:
+            return Fail("argv:dump-parse-dump-not-byte-identical", argv=argv, default=default_kind, fmt=fmt, first=t1, second=t2)
+    return True
+
+
+def argv_channel():
+    _argv_once("none", [])
+
+    def harness():
+        kind = S.pick("default", ["none", "spec", "lazy"])
+        argv = S.pick("argv", ARGV_MENU)
+        if S.replaying is not None:
+            res = _argv_once(kind, argv)
+        else:
+            from crosshair.tracers import NoTracing
+
+            with NoTracing():
+                res = _argv_once(kind, argv)
+        S.note("accepted" if res is not None else "rejected")
+        return res
+
+    return harness
+
+
 KERNEL_SPECS = [
     ("int", 0), ("float", 0), ("bool", 0), ("str", 0), ("PositiveInt", 0), ("Literal[1,'a']", 0), ("Color", 0),
     (["Optional", "int"], 0), (["List", "float"], 1), (["Dict", "int"], 1), (["TupleVar", "int"], 1), (["Set", "int"], 1), (["Tuple", "int"], 1),
@@ -215,6 +287,7 @@ def main(rep, tier):
     jobs = [dict(module="c10", func="fixpoint", kwargs=dict(shape=s.name, **sj), timeout=240 if tier == "quick" else 900) for s in shapes for sj in shard_jobs(s.name)]
     jobs += [dict(module="c10", func="kernel", kwargs=dict(spec=sp, depth=d), timeout=200) for sp, d in KERNEL_SPECS]
     jobs.append(dict(module="c10", func="from_files", kwargs={}, timeout=300))
+    jobs.append(dict(module="c10", func="argv_channel", kwargs={}, timeout=300, max_fail_samples=40))
     e2e = [dict(module="c01", func="e2e_factory", kwargs=dict(shape="registered", skip_default=False), timeout=300)]
     if tier == "thorough":
         e2e = [dict(module="c01", func="e2e_factory", kwargs=dict(shape=s.name, skip_default=False), timeout=600) for s in shapes_for(tier)]
